@@ -85,12 +85,12 @@ func (engine) CoqHeader() string {
 }
 func (engine) CoqCaseType() string { return "ccase" }
 
-var kinds = []string{"pregel", "dag", "workflow", "chain", "state", "nested", "tools", "react", "host", "ckpt", "comp", "reent", "multi", "embed", "fan"}
+var kinds = []string{"pregel", "dag", "workflow", "chain", "state", "nested", "tools", "react", "host", "ckpt", "comp", "reent", "multi", "embed", "fan", "ckfan"}
 
 var builders = map[string]func(*lib.Rng, *zoo) (*object, error){
 	"pregel": buildPregel, "dag": buildDag, "workflow": buildWorkflow, "chain": buildChain, "state": buildState,
 	"nested": buildNested, "tools": buildTools, "react": buildReact, "host": buildHost,
-	"ckpt": buildCkpt, "comp": buildComp, "reent": buildReent, "multi": buildMulti, "embed": buildEmbed, "fan": buildFan,
+	"ckpt": buildCkpt, "comp": buildComp, "reent": buildReent, "multi": buildMulti, "embed": buildEmbed, "fan": buildFan, "ckfan": buildCkfan,
 }
 
 func (engine) Generate(r *lib.Rng, tier string, i int) any {
@@ -118,6 +118,14 @@ func (engine) Generate(r *lib.Rng, tier string, i int) any {
 			if c.PerG < 1 {
 				c.G, c.PerG = 24, 1
 			}
+		}
+		if c.Kind == "ckfan" && c.G*c.PerG > 16 {
+			// the same for the sessions over a workflow whose checkpoints hold channel values (2-3 runs
+			// each): 16 concurrent sessions per case in the quick tier
+			if c.G > 16 {
+				c.G = 16
+			}
+			c.PerG = 16 / c.G
 		}
 	}
 	return c
